@@ -27,6 +27,7 @@ pub fn c06(ctx: &mut Ctx, tier: &str, seed: u64) {
         ctx.case(nontrivial_path(&cs), (s, 0u8));
         ctx.tally(&format!("ncomp={}", cs.len().min(8)));
         let rp = format!("parent u {}", hex(s));
+        at(rp.clone());
         let (a, b) = (p.parent().map(|x| x.as_bytes()), q.parent().map(|x| x.as_os_str().as_bytes()));
         if a != b {
             ctx.fail("parent-vs-std", None, rp.clone(), format!("impl {} std {}", ob(a), ob(b)));
@@ -37,6 +38,7 @@ pub fn c06(ctx: &mut Ctx, tier: &str, seed: u64) {
             ctx.fail("ancestors-vs-std", None, format!("anc u {}", hex(s)), format!("impl {:?} std {:?}", ia.iter().map(|x| lossy(x)).collect::<Vec<_>>(), sa.iter().map(|x| lossy(x)).collect::<Vec<_>>()));
         }
         let rp = format!("fname u {}", hex(s));
+        at(rp.clone());
         let (a, b) = (p.file_name(), q.file_name().map(|x| x.as_bytes()));
         if a != b {
             ctx.fail("file_name-vs-std", None, rp.clone(), format!("impl {} std {}", ob(a), ob(b)));
@@ -56,6 +58,7 @@ pub fn c06(ctx: &mut Ctx, tier: &str, seed: u64) {
         let (pa, pb) = (UnixPath::new(a), UnixPath::new(b));
         let (qa, qb) = (sp(a), sp(b));
         let rp = format!("strip u {} {}", hex(a), hex(b));
+        at(rp.clone());
         ctx.case(qa.starts_with(qb) && !std_comps(b).is_empty(), (a, b));
         ctx.tally(if qa.starts_with(qb) { "starts_with" } else if qa.ends_with(qb) { "ends_with" } else { "unrelated" });
         if pa.starts_with(pb) != qa.starts_with(qb) {
@@ -185,6 +188,7 @@ pub fn c08(ctx: &mut Ctx, tier: &str, seed: u64) {
         let da = spec::win_decomp(a);
         for b in &args {
             let rp = format!("push w {} {}", hex(a), hex(b));
+            at(rp.clone());
             let got = push_b(true, a, b);
             let db = spec::win_decomp(b);
             let rule = if b.is_empty() { "empty" } else if db.has_prefix() { "prefix" } else if da.any_verbatim() { "verbatim" } else if db.root { "rooted" } else { "append" };
@@ -278,6 +282,7 @@ pub fn c09(ctx: &mut Ctx, tier: &str, seed: u64) {
         for s in &dom {
             let cs = comps(win, s);
             let rp = format!("parent {} {}", e, hex(s));
+            at(rp.clone());
             let expect_none = matches!(cs.last(), None | Some(SComp::Root) | Some(SComp::Prefix(_)));
             let par = parent_b(win, s);
             ctx.case(nontrivial_path(&cs), (win, s));
@@ -373,6 +378,7 @@ pub fn c10(ctx: &mut Ctx, tier: &str, seed: u64) {
             }
             let (cp, cq) = (comps(win, p), comps(win, q));
             let rp = format!("strip {} {} {}", e, hex(p), hex(q));
+            at(rp.clone());
             let (sw, ew, st): (bool, bool, Option<Vec<u8>>) = if win {
                 let (a, b) = (WindowsPath::new(p), WindowsPath::new(q));
                 (a.starts_with(b), a.ends_with(b), a.strip_prefix(b).ok().map(|r| r.as_bytes().to_vec()))
@@ -428,6 +434,7 @@ pub fn c10(ctx: &mut Ctx, tier: &str, seed: u64) {
                     continue;
                 }
                 let rp = format!("push {} {} {}", e, hex(a), hex(b));
+                at(rp.clone());
                 let j = push_b(win, a, b);
                 let (sw, st) = if win {
                     (WindowsPath::new(&j).starts_with(a), WindowsPath::new(&j).strip_prefix(a).ok().map(|r| r.as_bytes().to_vec()))
